@@ -21,6 +21,7 @@ from typing import List
 from crosshair.tracers import NoTracing
 
 from vt import lift, rt, world
+from vt.lift import RealFallback
 from vt.core import digits, shard, tick
 
 R = rt.patch_repository_for_miniloop()
@@ -53,7 +54,7 @@ _TAIL = lift.lift_range('replicat.repository', 'restore', _tail_start, None, _T1
                         overrides={'logger': rt.Nop(), 'os': _OS}, generator_yield_locks={'glock'})
 
 
-class _T1Self:
+class _T1Self(RealFallback):
     def __init__(self):
         self.restored = []
 
@@ -166,7 +167,7 @@ class _CoopThreading:
 _WRITE_REF = None
 
 
-class _T2Self:
+class _T2Self(RealFallback):
     def __init__(self):
         self.active = {}
         self.max_active = 0
